@@ -1,6 +1,9 @@
 import CGV.Props.C06
+import CGV.Props.C06Steps
 #print axioms CGV.C06.C06_manual_eq_iter
 #print axioms CGV.C06.C06_all_is_last
 #print axioms CGV.C06.C06_chain
 #print axioms CGV.C06.C06_each_is_step
 #print axioms CGV.C06.C06_compose_partial
+#print axioms CGV.C06.step_guarantees
+#print axioms CGV.C06.C06_guarantees_every_step
